@@ -26,6 +26,7 @@ STAGES = ["STranspile", "SInitMacros", "SLoadCreate", "SLoadInsert", "SLoadNorma
 # key: (file relative to src/vtlengine, function name, regex on the source of the first argument of execute/sql)
 EXEC_SITES: List[Tuple[str, str, str, str]] = [
     ("duckdb_transpiler/sql/__init__.py", "initialize_time_types", r".*", "SInitMacros"),
+    ("duckdb_transpiler/io/_io.py", "_create_table", r"build_create_table_sql", "SLoadCreate"),
     ("duckdb_transpiler/io/_io.py", "load_datapoints_duckdb", r"build_create_table_sql", "SLoadCreate"),
     ("duckdb_transpiler/io/_io.py", "_create_empty_table", r"build_create_table_sql", "SLoadCreate"),
     ("duckdb_transpiler/io/_io.py", "_load_parquet", r"build_create_table_sql", "SLoadCreate"),
